@@ -52,6 +52,9 @@ type job struct {
 	Hi    int    `json:"hi"`   // case index range [lo,hi); hi<0 = all
 	Only  string `json:"only"` // replay: run just the case with this name
 	Quick bool   `json:"quick"`
+	// MidRound: the node under test is a replica in the middle of the round on block b: it validated the
+	// leader's proposal (bft keeps the block result) before the certificate arrives from a peer
+	MidRound bool `json:"mid_round,omitempty"`
 }
 
 type caseRec struct {
@@ -227,6 +230,13 @@ func (w *world) runCases(res *result, part string, cases []tcase, lo, hi int, on
 			res.HarnessErr = fmt.Sprintf("case %s: %v", tc.name, err)
 			return
 		}
+		if w.midRound {
+			// the replica validated the leader's proposal of block b: the result stays cached in bft until the round ends
+			if _, e := w.N.ValidateProposal(w.b, w.proposer, true); e != nil {
+				res.HarnessErr = fmt.Sprintf("case %s: mid-round validation of the honest proposal failed: %v", tc.name, e)
+				return
+			}
+		}
 		v := valid(tc)
 		o := w.feed(w.N, qc, false)
 		res.Cases++
@@ -242,9 +252,19 @@ func (w *world) runCases(res *result, part string, cases []tcase, lo, hi int, on
 		cs := append([]string{}, tc.classes...)
 		sort.Strings(cs)
 		res.CertClasses[strings.Join(cs, "+")+"=>"+outc]++
-		rp := map[string]any{"cfg": w.cfg.Name, "part": part, "case": tc.name}
+		rp := map[string]any{"cfg": w.cfg.Name, "part": part, "case": tc.name, "mid_round": w.midRound}
 		for _, p := range o.problems {
 			res.Viols = append(res.Viols, mc.Viol{Sig: classSig("invariant-on-"+outc, tc.classes), What: fmt.Sprintf("config %s part %s case %s: %s\n   certificate: %s", w.cfg.Name, part, tc.name, p, tc.c.describe()), Replay: rp})
+		}
+		// a replica in the middle of the round on block b commits its OWN validated copy of b (the cached
+		// block result); the carried block bytes are then not executed. If the certificate names b and is
+		// otherwise valid, and what was committed is exactly b, the gate held: the statement is about the
+		// block that is appended.
+		if o.accepted && !v.ok && w.midRound && len(v.reasons) == 1 && strings.HasPrefix(v.reasons[0], "carried block") && bytes.Equal(tc.c.BlockHash, w.b.Block.BlockHeader.Hash) {
+			if br, e := w.N.FSM().LoadBlock(w.h); e == nil && br != nil && br.BlockHeader != nil && bytes.Equal(br.BlockHeader.Hash, w.b.Block.BlockHeader.Hash) && sameTxs(br.Transactions, w.b.Block.Transactions) {
+				v.ok = true
+				res.Observations["mid-round replica committed its own validated copy of the certified block; the carried block bytes ("+tc.c.blockIs+") were ignored"]++
+			}
 		}
 		switch {
 		case o.accepted && !v.ok:
@@ -319,6 +339,7 @@ func runJob(j job) (res result) {
 		}
 		defer w.close()
 		w.quick = j.Quick
+		w.midRound = j.MidRound
 		if err = w.prepareCandidates(); err != nil {
 			res.HarnessErr = err.Error()
 			return
@@ -668,6 +689,8 @@ func main() {
 		// case lists are deterministic per configuration, so index ranges are stable across workers
 		jobs = append(jobs, job{Cfg: c.Name, Part: "subsets", Hi: -1, Quick: quick})
 		jobs = append(jobs, job{Cfg: c.Name, Part: "singles", Lo: 0, Hi: 50, Quick: quick}, job{Cfg: c.Name, Part: "singles", Lo: 50, Hi: 100, Quick: quick}, job{Cfg: c.Name, Part: "singles", Lo: 100, Hi: -1, Quick: quick})
+		jobs = append(jobs, job{Cfg: c.Name, Part: "subsets", Hi: -1, Quick: quick, MidRound: true})
+		jobs = append(jobs, job{Cfg: c.Name, Part: "singles", Lo: 0, Hi: 70, Quick: quick, MidRound: true}, job{Cfg: c.Name, Part: "singles", Lo: 70, Hi: -1, Quick: quick, MidRound: true})
 		jobs = append(jobs, job{Cfg: c.Name, Part: "last", Lo: 0, Hi: 40, Quick: quick}, job{Cfg: c.Name, Part: "last", Lo: 40, Hi: 80, Quick: quick}, job{Cfg: c.Name, Part: "last", Lo: 80, Hi: 120, Quick: quick}, job{Cfg: c.Name, Part: "last", Lo: 120, Hi: -1, Quick: quick})
 	}
 	fs := []string{"n4-5/1/1/1"}
@@ -830,6 +853,7 @@ func doReplay(r *mc.Run) {
 		Cfg  string `json:"cfg"`
 		Part string `json:"part"`
 		Case string `json:"case"`
+		Mid  bool   `json:"mid_round"`
 	}
 	if err := r.LoadReplay(&rp); err != nil {
 		fmt.Println("cannot load replay:", err)
@@ -837,7 +861,7 @@ func doReplay(r *mc.Run) {
 	}
 	n := 0
 	for i := 0; i < 5; i++ {
-		res := runJob(job{Cfg: rp.Cfg, Part: rp.Part, Hi: -1, Only: rp.Case})
+		res := runJob(job{Cfg: rp.Cfg, Part: rp.Part, Hi: -1, Only: rp.Case, MidRound: rp.Mid})
 		if res.HarnessErr != "" {
 			fmt.Println("harness error:", res.HarnessErr)
 		}
@@ -859,4 +883,17 @@ func fsmEditStake(last int) (lib.TransactionI, lib.ErrorI) {
 
 func fsmSend(height uint64) (lib.TransactionI, lib.ErrorI) {
 	return fsm.NewSendTransaction(env.BLS(10), env.Addr(env.BLS(11)), 12345, env.NetworkID, env.ChainID, 10000, height, "")
+}
+
+func sameTxs(got []*lib.TxResult, want [][]byte) bool {
+	if len(got) != len(want) {
+		return false
+	}
+	for i, r := range got {
+		bz, e := lib.Marshal(r.Transaction)
+		if e != nil || !bytes.Equal(bz, want[i]) {
+			return false
+		}
+	}
+	return true
 }
